@@ -393,13 +393,13 @@ def roi_boundary(roi: NormalizedROI, pts_per_side: int = 2) -> np.ndarray:
     roi needs to be in the normalised form, i.e. no open-ended start/stop,
 
     :returns:
-      ``Nx2 <float32>`` array of ``X,Y`` points on the perimeter of the envelope defined by ``roi``
+      ``Nx2 <float64>`` array of ``X,Y`` points on the perimeter of the envelope defined by ``roi``
 
     .. seealso:: :py:func:`~odc.geo.roi.roi_normalise`
     """
     yy, xx = roi
-    xx = np.linspace(xx.start, xx.stop, pts_per_side, dtype="float32")
-    yy = np.linspace(yy.start, yy.stop, pts_per_side, dtype="float32")
+    xx = np.linspace(xx.start, xx.stop, pts_per_side, dtype="float64")
+    yy = np.linspace(yy.start, yy.stop, pts_per_side, dtype="float64")
 
     return polygon_path(xx, yy, closed=False).T
 
